@@ -110,6 +110,10 @@ def live_betamap(dis_name, nets, spec, route='kwarg'):
     try:
         sim = build_sim(dis_name, nets, beta_value(spec), route); sim.init()
     except Exception as e:
+        try:        # is the configuration itself (this class on these networks) unusable, whatever the beta?
+            build_sim(dis_name, nets, ss.beta(0.1), 'kwarg').init()
+        except Exception:
+            return 'skip', f'{dis_name} on {nets} does not initialise even with a scalar beta'
         return B.err_kind(e), f'{type(e).__name__}: {str(e)[:100]}'
     dis = sim.diseases[0]
     bm = dis.validate_beta()
@@ -192,6 +196,8 @@ def round3_cases(ctx, ask):
                 mo = ml[0]
                 ctx.case(('betamap', cls.__name__, tuple(nets), repr(spec), route), True,
                          sample=dict(kind='betamap', cls=cls.__name__, nets=nets, family=fam, route=route, impl=str(impl)[:80], model=mo[:80]) if ctx.rng.random() < 0.03 else None)
+                if impl[0] == 'skip':
+                    ctx.count('r3_betamap_skipped'); return
                 ctx.count('r3_betamap_' + fam)
                 got = f'ok {impl[1]}' if impl[0] == 'ok' else impl[0]
                 if got != mo:
